@@ -304,8 +304,9 @@ def parse_tlc(out, rc):
     elif "Error: Action property" in out:
         m = re.search(r"Error: Action property (\S+)", out)
         r.violation = "action property " + (m.group(1) if m else "")
-    elif "Temporal properties were violated" in out:
-        r.violation = "temporal property"
+    elif "Temporal properties were violated" in out or re.search(r"Temporal property \S+ was violated", out):
+        m = re.search(r"Temporal property (\S+) was violated", out)
+        r.violation = "temporal property" + (" " + m.group(1) if m else "")
     elif "Error: Deadlock reached" in out:
         r.violation = "deadlock"
     elif re.search(r"Error: The postcondition .* is violated|Postcondition .* violated|The postcondition", out) and "violated" in out:
